@@ -89,6 +89,8 @@ class ExprMixin:
                     return lv2
                 raise Unsupported(f"cannot lift python object {v.z!r} to {ty}", node)
             return self.coerce(lv, ty, node)
+        if isinstance(ty, T.Atom) and v.ty is T.STR and z3.is_string_value(v.z):
+            return V(ty, self.intern(ty, v.z.as_string()))     # a literal naming an abstract value
         if isinstance(ty, T.Opt):
             if v.ty is T.NONE:
                 return V(ty, ty.none())
